@@ -33,11 +33,13 @@ const (
 	PWidth6Str // strings of 6 bytes: same encoded width (1+2+6) as a number (1+8)
 	PMixIntFloat
 	PMixNumNumText // JSON numbers and numeric text ("5000", "12", "3.50") in one column
+	PIntThenFloat  // integers for the first Cut events, floats afterwards: whole blocks / segments of one kind
+	PFloatThenInt  // the reverse
 	numProfiles
 )
 
 var profileNames = [...]string{"int", "float", "bool", "lowstr", "highstr", "numtext", "mix_num_str", "mix_num_bool",
-	"nullonly", "intbig", "escstr", "width6str", "mix_int_float", "mix_num_numtext"}
+	"nullonly", "intbig", "escstr", "width6str", "mix_int_float", "mix_num_numtext", "int_then_float", "float_then_int"}
 
 func (p Profile) String() string { return profileNames[p] }
 
@@ -73,6 +75,7 @@ type Column struct {
 	Presence Presence
 	K, L     int // presence parameters
 	SparseP  int // percent
+	Cut      int `json:",omitempty"` // PIntThenFloat / PFloatThenInt: event index at which the kind changes
 }
 
 func (c Column) Name() string { return strings.Join(c.Path, ".") }
@@ -191,6 +194,10 @@ func genValue(t *rapid.T, p Profile) model.Val {
 			return genInt(t)
 		}
 		return genFloat(t)
+	case PIntThenFloat:
+		return genInt(t) // the caller switches to floats after the column's cut (genValueAt)
+	case PFloatThenInt:
+		return genFloat(t)
 	case PMixNumNumText:
 		switch rapid.IntRange(0, 3).Draw(t, "mixKind") {
 		case 0:
@@ -296,6 +303,9 @@ func GenColumns(t *rapid.T, o DatasetOpts, n int) []Column {
 		if n > 0 {
 			c.K = rapid.IntRange(0, n).Draw(t, "K")
 			c.L = rapid.IntRange(c.K, n).Draw(t, "L")
+			if c.Profile == PIntThenFloat || c.Profile == PFloatThenInt {
+				c.Cut = rapid.IntRange(0, n).Draw(t, "kindCut")
+			}
 		}
 		cols = append(cols, c)
 	}
@@ -387,6 +397,14 @@ func GenDataset(t *rapid.T, o DatasetOpts) *Dataset {
 				b.put(c.Path, arr)
 			default:
 				v := genValue(t, c.Profile)
+				if i >= c.Cut {
+					switch c.Profile {
+					case PIntThenFloat:
+						v = genFloat(t)
+					case PFloatThenInt:
+						v = genInt(t)
+					}
+				}
 				if o.NullPct > 0 && rapid.IntRange(0, 99).Draw(t, "nullify") < o.NullPct {
 					v = model.Null()
 				}
